@@ -186,10 +186,12 @@ PROPS = {
     },
     "C18": {
         "level": "other",
-        "level_text": "Mixed. Proved (contracts on the real string-transformer shell that both LaTeX middlewares inherit, every entry with distinct Field objects, every @string): only str field values, the four part lists of NameParts values and str @string values are replaced; a str stays a str, a NameParts keeps its identity and gets part lists of the same lengths, every other value is the same object as before; keys, the field list, entry type, key, raw text and start line are untouched; reported conversion failures yield a fresh MiddlewareErrorBlock holding the original entry / string and nothing is raised; the helper maps the conversion over a list element by element without touching its input. Bounded (native, labelled): decode(encode(t)) == t over the stated alphabet and options (third-party converter, pylatexenc), that the shipped conversion hooks turn converter exceptions into non-empty messages, other blocks end to end.",
-        "level_note": STD_NOTE + "; the conversion hook _transform_python_value_string enters through an ASSUMED virtual contract (returns a pair of str, writes nothing, raises nothing): its two shipped overrides wrap third-party code (pylatexenc) in try/except and are checked bounded.",
+        "level_text": "Mixed. Proved (contracts on the real string-transformer shell that both LaTeX middlewares inherit, every entry with distinct Field objects, every @string): only str field values, the four part lists of NameParts values and str @string values are replaced; a str stays a str, a NameParts keeps its identity and gets part lists of the same lengths, every other value is the same object as before; keys, the field list, entry type, key, raw text and start line are untouched; reported conversion failures yield a fresh MiddlewareErrorBlock holding the original entry / string and nothing is raised; the helper maps the conversion over a list element by element without touching its input; the two shipped conversion hooks let no exception of the third-party converter escape and turn it into (the unchanged text, a non-empty message), so a failure is never mistaken for success. Bounded (native, labelled): decode(encode(t)) == t over the stated alphabet and options (third-party converter, pylatexenc), other blocks end to end.",
+        "level_note": STD_NOTE + "; the conversion hook _transform_python_value_string enters through an ASSUMED virtual contract (returns a pair of str, writes nothing, raises nothing): its two shipped overrides are verified against it; their converter objects are third-party (pylatexenc): A-EXT -- a converter method returns a str or raises some Exception and writes nothing the repository's objects can see; A-REPR -- repr() of an object is non-empty.",
         "modules": ["schema", "latex"],
-        "functions": ["bibtexparser.middlewares.latex_encoding._PyStringTransformerMiddleware._transform_all_strings", "bibtexparser.middlewares.latex_encoding._PyStringTransformerMiddleware.transform_string", "bibtexparser.middlewares.latex_encoding._PyStringTransformerMiddleware.transform_entry"],
+        "functions": ["bibtexparser.middlewares.latex_encoding._PyStringTransformerMiddleware._transform_all_strings", "bibtexparser.middlewares.latex_encoding._PyStringTransformerMiddleware.transform_string", "bibtexparser.middlewares.latex_encoding._PyStringTransformerMiddleware.transform_entry",
+                      "bibtexparser.middlewares.latex_encoding.LatexEncodingMiddleware._transform_python_value_string",
+                      "bibtexparser.middlewares.latex_encoding.LatexDecodingMiddleware._transform_python_value_string"],
         "native": "p18",
         "explanation": "proved: scope, type preservation, untouched identity, error containment of the string-transformer shell; bounded: the encode/decode round trip and the converter-exception handling of the shipped hooks",
     },
